@@ -32,3 +32,5 @@ proof fn lemma_gap_prefix(sink0: Seq<u8>, i: nat, pad: nat, s2: Seq<u8>)
 // (arguments are evaluated eagerly, as in Rust)
 pub assume_specification<T, E, U>[ core::result::Result::<T, E>::and ](a: core::result::Result<T, E>, b: core::result::Result<U, E>) -> (r: core::result::Result<U, E>)
     ensures r == (match a { Ok(_) => b, Err(e) => Err(e) });
+pub assume_specification[ <u8 as core::convert::From<bool>>::from ](b: bool) -> (r: u8)
+    ensures r == (if b { 1u8 } else { 0u8 });
